@@ -107,6 +107,43 @@ struct Adv<'a> {
     accepted_invalid: u64,
     judged: u64,
     desc: serde_json::Value,
+    /// real PoW (Eaglesong): a header with an unsolved nonce is observable
+    real_pow: bool,
+    /// peer -> index of a chain that extends the peer's chain by a fabricated child whose nonce is NOT solved; the peer answers
+    /// every request about that child consistently (own MMR root, honest samples and last-N headers of the real ancestors)
+    fake: HashMap<usize, usize>,
+    pow_violated: bool,
+}
+
+impl<'a> Adv<'a> {
+    /// ground truth, independent of labels: whatever was delivered, every header the client treats as proven (each peer's
+    /// prove state, the stored tip) must carry valid proof of work
+    fn check_pow_of_trusted_headers(&mut self, w: &World, last_msg: &str) {
+        if !self.real_pow || self.pow_violated || w.client.is_none() || w.dead {
+            return;
+        }
+        let c = w.c();
+        let pow = w.consensus.pow_engine();
+        let mut bad: Option<(String, String)> = None;
+        for id in c.peers.get_peers_index() {
+            if let Some(ps) = c.peers.get_state(&id).and_then(|st| st.get_prove_state().cloned()) {
+                let h = ps.get_last_header().header();
+                if !pow.verify(&h.data()) {
+                    bad = Some(("prove-state".into(), format!("#{} {:x}", h.number(), h.hash())));
+                }
+            }
+        }
+        let tip = c.storage.get_tip_header();
+        if !pow.verify(&tip) {
+            bad = Some(("stored-tip".into(), format!("#{} {:x}", Unpack::<u64>::unpack(&tip.raw().number()), tip.calc_header_hash())));
+        }
+        self.out.eval(1);
+        if let Some((wh, hd)) = bad {
+            self.pow_violated = true;
+            self.out.violation("C01.R4", &format!("C01|header-without-valid-pow-in-trusted-state|{}", wh),
+                json!({"scenario": self.desc, "where": wh, "header": hd, "after_message": last_msg, "trace": w.trace_vec().into_iter().rev().take(25).collect::<Vec<_>>()}), self.k);
+        }
+    }
 }
 
 impl<'a> Hook for Adv<'a> {
@@ -118,6 +155,31 @@ impl<'a> Hook for Adv<'a> {
             Ok(packed::LightClientMessageUnionReader::GetLastStateProof(r)) => r.to_entity(),
             _ => return honest,
         };
+        if let Some(fci) = self.fake.get(&pi) {
+            let fake = &w.chains[*fci];
+            if fake.num_of(&req.last_hash()) == Some(fake.tip()) {
+                // the follow-up of the attack: a consistent answer about the fabricated (unmined) child
+                if let Some(p) = server::last_state_proof(fake, &req) {
+                    self.out.count("consistent_answers_about_the_unmined_child", 1);
+                    return vec![Resp { proto: LC, data: server::lc_msg(p), label: Label::Unjudged }];
+                }
+            }
+        }
+        if self.real_pow && self.rng.chance(1, 14) {
+            // tip-state reply (the peer "moved on"): the new last header is a child of the peer's tip that commits to the true
+            // chain root but whose nonce is not solved
+            let chain: Chain = w.chains[w.peers[pi].chain].clone();
+            let (b, _) = mutate::forged_child(&chain, None, None, self.rng.next_u64());
+            if let Some(ub) = super::super::chain::unmine(&b) {
+                let mut fake = chain.clone();
+                fake.append_block(ub);
+                let vh = fake.vh(fake.tip());
+                let fci = w.add_chain(fake);
+                self.fake.insert(pi, fci);
+                let data = server::lc_msg(packed::SendLastStateProof::new_builder().last_header(vh).build());
+                return vec![Resp { proto: LC, data, label: Label::Invalid("tip-state-reply|unmined-child".into()) }];
+            }
+        }
         let chain: &Chain = &w.chains[w.peers[pi].chain];
         let parts = match server::proof_parts(chain, &req) {
             Some(p) => p,
@@ -199,6 +261,10 @@ impl<'a> Hook for Adv<'a> {
 
     fn after_deliver(&mut self, w: &mut World, pi: usize, m: &Resp, o: &Outcome) {
         self.out.eval(1);
+        if m.proto == LC {
+            let d = server::describe(m.proto, &m.data);
+            self.check_pow_of_trusted_headers(w, &d);
+        }
         match &m.label {
             Label::Invalid(op) => {
                 self.judged += 1;
@@ -327,6 +393,9 @@ fn scenario(seed: u64, k: u64, out: &Out) {
         accepted_invalid: 0,
         judged: 0,
         desc: desc.clone(),
+        real_pow: params.pow == super::super::chain::PowKind::Eaglesong,
+        fake: HashMap::new(),
+        pow_violated: false,
     };
     w.connect_all();
     let phases = rng.range(3, 9);
